@@ -113,7 +113,10 @@ fn sync_to_completion(w: &mut AsyncWriter<ScriptSink>, ch: &Shared, drops_left: 
 
 pub struct RunInfo { pub cancelled_writes: usize, pub partials: usize, pub pendings: usize, pub errors: usize, pub zeros: usize }
 
-fn run_schedule(items: &[Item], max_len: u32, ch: Shared, b: Bounds) -> Result<RunInfo, Fail> {
+/// `idle_syncs[i]`: call `sync()` once more after item `i` is settled (it must not touch the sink). The statement demands a
+/// sync only after a dropped write, so histories without these extra calls are just as legitimate - and an extra sync can
+/// repair state that a write left behind, which is why both forms are generated.
+fn run_schedule(items: &[Item], max_len: u32, ch: Shared, b: Bounds, idle_syncs: &[bool]) -> Result<RunInfo, Fail> {
     let st = Rc::new(RefCell::new(SinkState::default()));
     let mut w = AsyncWriter::new(ScriptSink { st: st.clone(), ch: ch.clone(), b });
     w.set_max_len(max_len);
@@ -135,7 +138,8 @@ fn run_schedule(items: &[Item], max_len: u32, ch: Shared, b: Bounds) -> Result<R
                     Done::Dropped => return Err(Fail::new("bad-value-pending", format!("item {} ({:?}) returned Pending although nothing may be written; {}", i, it, describe(&st))))
                 }
                 if st.borrow().received.len() != received_before { return Err(Fail::new("bad-value-emitted", format!("item {} ({:?}) put {} bytes into the sink; {}", i, it, st.borrow().received.len() - received_before, describe(&st)))) }
-                // the proviso of the statement: complete any pending transfer before the next write (nothing is pending here)
+                // nothing is pending here: the next write may follow at once, or after a sync that has nothing to do
+                if !idle_syncs.get(i).copied().unwrap_or(true) { continue }
                 let calls = st.borrow().calls;
                 let errs = sync_to_completion(&mut w, &ch, &mut drops_left, &st)?;
                 if !errs.is_empty() || st.borrow().calls != calls { return Err(Fail::new("idle-sync-writes", format!("sync() after a refused value touched the sink; {}", describe(&st)))) }
@@ -166,6 +170,7 @@ fn run_schedule(items: &[Item], max_len: u32, ch: Shared, b: Bounds) -> Result<R
                     return Err(Fail::new("sink-bytes", format!("after item {} the sink holds {} ; the complete frames so far are {} ; {}", i, short_hex(&s.received), short_hex(&expected), format!("schedule [{}]", s.log.join(" ")))))
                 }
                 // sync on an idle writer performs no sink call
+                if !idle_syncs.get(i).copied().unwrap_or(true) { continue }
                 let calls = st.borrow().calls;
                 let errs = sync_to_completion(&mut w, &ch, &mut drops_left, &st)?;
                 if !errs.is_empty() || st.borrow().calls != calls { return Err(Fail::new("idle-sync-writes", format!("sync() on an idle writer called the sink; {}", describe(&st)))) }
@@ -177,25 +182,31 @@ fn run_schedule(items: &[Item], max_len: u32, ch: Shared, b: Bounds) -> Result<R
     Ok(RunInfo { cancelled_writes: cancelled, partials: s.partials, pendings: s.pendings, errors: s.errors, zeros: s.zeros })
 }
 
-fn dfs_items() -> Vec<(Vec<Item>, u32)> {
+/// (values, max_len, which items are followed by an extra idle sync)
+fn dfs_items() -> Vec<(Vec<Item>, u32, Vec<bool>)> {
     let big = 512 * 1024;
     vec![
-        (vec![Item::V(Val::U(7))], big),
-        (vec![Item::V(Val::U(7)), Item::V(Val::U(300))], big),
-        (vec![Item::V(Val::S("ab".into()))], big),
-        (vec![Item::Failing(2), Item::V(Val::U(1))], big),
-        (vec![Item::V(Val::U(9)), Item::TooLong(20), Item::V(Val::B(vec![1]))], 8),
-        (vec![Item::V(Val::R(Rec { a: 1, s: "x".into(), o: None, v: vec![] }))], big),
+        (vec![Item::V(Val::U(7))], big, vec![true]),
+        (vec![Item::V(Val::U(7)), Item::V(Val::U(300))], big, vec![true, true]),
+        (vec![Item::V(Val::S("ab".into()))], big, vec![true]),
+        (vec![Item::Failing(2), Item::V(Val::U(1))], big, vec![true, true]),
+        (vec![Item::V(Val::U(9)), Item::TooLong(20), Item::V(Val::B(vec![1]))], 8, vec![true, true, true]),
+        (vec![Item::V(Val::R(Rec { a: 1, s: "x".into(), o: None, v: vec![] }))], big, vec![true]),
+        // a refused value straight after a completed write, then a sync / then the next write without any sync
+        (vec![Item::V(Val::U(9)), Item::TooLong(20), Item::V(Val::B(vec![1]))], 8, vec![false, true, true]),
+        (vec![Item::V(Val::U(300)), Item::Failing(3), Item::V(Val::U(1))], big, vec![false, true, false]),
+        (vec![Item::V(Val::U(9)), Item::TooLong(20), Item::V(Val::B(vec![1]))], 8, vec![false, false, true]),
+        (vec![Item::V(Val::U(7)), Item::V(Val::U(300))], big, vec![false, true]),
     ]
 }
 
 fn exhaustive(i: u64, st: &mut Stats, b: Bounds, cap: u64) -> CaseResult {
     let all = dfs_items();
-    let (items, max_len) = &all[(i as usize / split_count()) % all.len()];
+    let (items, max_len, idle) = &all[(i as usize / split_count()) % all.len()];
     let fixed = split_prefix(i as usize % split_count());
     let mut nontrivial = 0u64;
     let (count, done) = dfs(&fixed, cap, |ch| {
-        let info = run_schedule(items, *max_len, ch, b)?;
+        let info = run_schedule(items, *max_len, ch, b, idle)?;
         if info.cancelled_writes > 0 || info.partials > 0 { nontrivial += 1 }
         Ok(())
     })?;
@@ -203,7 +214,7 @@ fn exhaustive(i: u64, st: &mut Stats, b: Bounds, cap: u64) -> CaseResult {
     st.evals(count);
     st.nontrivial_enum(nontrivial);
     if !done { st.mark_incomplete(); st.class("dfs/subtree-capped") } else { st.class("dfs/subtree-exhausted") }
-    st.sample(i, || format!("items {:?}, first choices {:?}: {} schedules, {} with a short write or a cancelled write{}", items, fixed, count, nontrivial, if done { "" } else { " (capped)" }));
+    st.sample(i, || format!("items {:?} (extra idle syncs {:?}), first choices {:?}: {} schedules, {} with a short write or a cancelled write{}", items, idle, fixed, count, nontrivial, if done { "" } else { " (capped)" }));
     Ok(())
 }
 
@@ -222,18 +233,20 @@ fn random_walk(g: &mut Gen, st: &mut Stats) -> CaseResult {
     }).collect();
     let b = Bounds { pending_run: 1 + g.below(4), pending_total: usize::MAX, errors: g.below(4), zeros: g.below(3), drops: g.below(12), small: false };
     let ch: Shared = Rc::new(RefCell::new(TapeChooser::draw(g, 400)));
-    let info = run_schedule(&items, max_len, ch, b)?;
+    let idle: Vec<bool> = (0 .. n).map(|_| g.bool()).collect();
+    let info = run_schedule(&items, max_len, ch, b, &idle)?;
     if info.cancelled_writes > 0 || info.partials > 0 { st.nontrivial(hash_of(&(format!("{:?}", items).len(), info.partials, info.pendings, info.cancelled_writes, info.errors, info.zeros))) }
     st.class(if info.cancelled_writes > 0 { "walk/cancelled-write-resumed-by-sync" } else if info.partials > 0 { "walk/short-writes" } else { "walk/straight" });
     if info.zeros > 0 { st.class("walk/accept-0") }
     if info.errors > 0 { st.class("walk/transient-error") }
+    if items.windows(2).zip(idle.iter()).any(|(w, s)| !*s && matches!(w[0], Item::V(_)) && !matches!(w[1], Item::V(_))) { st.class("walk/refused-value-straight-after-a-write") }
     Ok(())
 }
 
 pub fn subs() -> Vec<Sub> {
     let n = (dfs_items().len() * split_count()) as u64;
     vec![
-        Sub { prop: "C16", name: "exhaustive", rule: "6 value lists (1-3 values incl. one whose Encode fails after emitting bytes and one above max_len) x every schedule of sink outcomes {accept k of n, Pending, transient error, accept 0} and caller decisions {poll again, drop the write future then drive sync (itself droppable) to completion} within the bounds (quick: <= 2 Pendings in total, 1 error, 1 accept-0, 2 drops, acceptances of all / half / 1 byte), depth-first by re-execution; oracle: sink == concatenation of complete frames in order after every value, completed write returns the payload length, each fault surfaces exactly once (accept 0 -> WriteZero), refused values emit nothing, sync on an idle writer makes no sink call; non-trivial = a short write or a cancelled write",
+        Sub { prop: "C16", name: "exhaustive", rule: "10 value lists (1-3 values incl. one whose Encode fails after emitting bytes and one above max_len; with and without an extra sync() between the calls) x every schedule of sink outcomes {accept k of n, Pending, transient error, accept 0} and caller decisions {poll again, drop the write future then drive sync (itself droppable) to completion} within the bounds (quick: <= 2 Pendings in total, 1 error, 1 accept-0, 2 drops, acceptances of all / half / 1 byte), depth-first by re-execution; oracle: sink == concatenation of complete frames in order after every value, completed write returns the payload length, each fault surfaces exactly once (accept 0 -> WriteZero), refused values emit nothing, sync on an idle writer makes no sink call; non-trivial = a short write or a cancelled write",
               kind: SubKind::Enumerate { quick: n, thorough: n, f: exhaustive_quick, complete_quick: true, complete_thorough: false } },
         Sub { prop: "C16", name: "exhaustive-deeper", rule: "the same value lists with <= 4 Pendings in total, 3 drops and the full acceptance spread (thorough; capped at 5*10^7 schedules per subtree)",
               kind: SubKind::Enumerate { quick: 0, thorough: n, f: exhaustive_thorough, complete_quick: false, complete_thorough: true } },
